@@ -276,6 +276,30 @@ def explore_handlers(r, rnd, n, stdlib):
                         fail("the references of a definition are not exactly the usages whose go-to-definition lands on it",
                              definition=[dp[len(root) + 1:], dl, dc], listed=[[a[len(root) + 1:], b, c] for a, b, c in got],
                              usages_landing_on_it=[[a[len(root) + 1:], b, c] for a, b, c in sorted(us)])
+                # opening and closing unmodified documents changes no answer: asked inside the import-free package h2pkg
+                # (what import-supplied names denote after a re-open, and the per-file view after a close, are listed findings)
+                def h2_snapshot():
+                    out = []
+                    for q in sorted(h2files):
+                        for (line, s, e, name) in usage_positions(h2files[q], stdlib):
+                            loc = as_list(srv.definition(q, line - 1, s))
+                            hv = srv.hover(q, line - 1, s)
+                            out.append((os.path.basename(q), line, s, [(os.path.relpath(lsp.uri_to_path(x["uri"]), root), x["range"]["start"]["line"]) for x in loc],
+                                        hv and hv["contents"]["value"]))
+                        for (dn, dl, ds, de) in def_positions(h2files[q], stdlib):
+                            refs = as_list(srv.references(q, dl - 1, ds, include_declaration=False))
+                            out.append((os.path.basename(q), dn, dl, sorted((os.path.relpath(lsp.uri_to_path(x["uri"]), root), x["range"]["start"]["line"],
+                                                                               x["range"]["start"]["character"]) for x in refs)))
+                    return out
+                before = h2_snapshot()
+                for q in sorted(h2files):
+                    srv.open(q, h2files[q])
+                    srv.close(q)
+                after = h2_snapshot()
+                stats["open_close"] += 1
+                if before != after:
+                    fail("opening and closing unmodified documents changed go-to-definition / hover / references answers",
+                         before=[x for x, y in zip(before, after) if x != y][:4], after=[y for x, y in zip(before, after) if x != y][:4])
             finally:
                 try:
                     srv.shutdown()
